@@ -15,7 +15,8 @@ Section Solve.
   Notation GL := (GL G).
   Notation Rel := (Rel G).
   Notation J := (J G).
-  Notation frame := (frame G).
+  Notation frame := (frame G cf).
+  Notation int_ok := (int_ok cf).
 
   (** ** states that differ only in counters (and possibly a raised [interrupted]) *)
   Definition same_core (s s' : state) : Prop :=
@@ -55,9 +56,9 @@ Section Solve.
       split; auto. intros Hc Hp. eapply Rel_sub; eauto. apply mn_le_refl.
   Qed.
 
-  Lemma frame_core s s' t m : WF s -> SI s -> same_core s s' -> frame s s' t m m.
+  Lemma frame_core s s' t m : WF s -> SI s -> same_core s s' -> int_ok s s' -> frame s s' t m m.
   Proof.
-    intros W S C. destruct (C) as [H1 [H2 [H3 H4]]]. constructor.
+    intros W S C Hint. destruct (C) as [H1 [H2 [H3 H4]]]. constructor; [| | | | | |exact Hint].
     - eapply WF_eq; eauto.
     - eapply SI_core; eauto.
     - apply ext_core; auto.
@@ -96,7 +97,7 @@ Section Solve.
   Section WithSg.
     Variable sg : nat -> mn -> state -> res (val * mn).
     Hypothesis Hsg : forall g m s t, WF s -> SI s -> g < length G -> topgoal s t -> edge G t g ->
-                                     sg_post G t g m s (sg g m s).
+                                     sg_post G cf t g m s (sg g m s).
 
     Definition it_post (g : nat) (s : state) (r : res (val * mn)) : Prop :=
       match r with
@@ -119,12 +120,13 @@ Section Solve.
         + (* continue *)
           set (s2 := bump_sci s1).
           assert (C2 : same_core s s2) by (repeat split; auto).
-          pose proof (frame_core s s2 g None W S C2) as F0.
-          assert (T2 : topgoal s2 g) by (eapply topgoal_ext; eauto; apply (fr_ext _ _ _ _ _ _ F0)).
+          assert (I2 : int_ok s s2) by (apply int_ok_eq; [simpl; lia|reflexivity]).
+          pose proof (frame_core s s2 g None W S C2 I2) as F0.
+          assert (T2 : topgoal s2 g) by (eapply topgoal_ext; eauto; apply (fr_ext _ _ _ _ _ _ _ F0)).
           assert (Hcs : forall c x, In c (clauses (get G g)) -> In x (fst c) -> edge G g x /\ x < length G).
           { intros c x Hc Hx. split; [eapply edge_clause; eauto|]. eapply Hwf; eauto. }
-          pose proof (eval_clauses_spec G sg Hsg g (clauses (get G g)) [] None None s2
-                        (fr_wf _ _ _ _ _ _ F0) (fr_si _ _ _ _ _ _ F0) T2 Hcs) as HE.
+          pose proof (eval_clauses_spec G cf sg Hsg g (clauses (get G g)) [] None None s2
+                        (fr_wf _ _ _ _ _ _ _ F0) (fr_si _ _ _ _ _ _ _ F0) T2 Hcs) as HE.
           simpl in HE. specialize (HE (fun th c H => match H with end)).
           destruct (eval_clauses sg (clauses (get G g)) None None s2) as [[v m'] s'| |]; simpl in *; auto.
           destruct HE as [F HE]. split; [eapply frame_trans; eauto|].
@@ -135,6 +137,7 @@ Section Solve.
           set (s2 := set_interrupted (bump_sci s1) true).
           assert (C2 : same_core s s2) by (repeat split; auto).
           split; [apply frame_core; auto|].
+          { split; [simpl; lia|]. intros _. right. exists (sci s). simpl. repeat split; auto. }
           intros th [Ht|Ht]; simpl in *; [destruct th; discriminate|discriminate].
     Qed.
   End WithSg.
@@ -357,7 +360,7 @@ Section Solve.
 
   Lemma found_node_spec dfn nd g m s t :
     WF s -> SI s -> Ctx s t g -> nodeat s dfn nd -> gn_goal nd = g ->
-    sg_post G t g m s (found_node dfn m s).
+    sg_post G cf t g m s (found_node dfn m s).
   Proof.
     intros W S C Hn Hg. unfold found_node. unfold nodeat in Hn. rewrite Hn.
     destruct C as [[_ C]|[T He]]; [rewrite C in Hn; destruct dfn; discriminate|].
@@ -394,6 +397,7 @@ Section Solve.
           -- left; auto.
           -- inversion Hl; subst l. right; right. split; [apply nth_error_Some; congruence|].
              exists nd. split; auto. rewrite Hg. apply path_refl.
+        * apply int_ok_eq; [apply le_n|reflexivity].
       + intros th Ht.
         destruct (si_node _ _ S1 th dfn nd Hn Ht) as [A _].
         destruct (Bool.bool_dec (coind (get G (gn_goal nd))) (tv th (gn_sol nd))) as [Eq|Ne].
@@ -418,6 +422,7 @@ Section Solve.
           -- left; auto.
           -- inversion Hl; subst l0. right; right. split; [apply nth_error_Some; unfold nodeat in Hnl; congruence|].
              exists ndl. split; auto. rewrite <- Hg. auto.
+        * apply int_ok_refl.
       + intros th Ht.
         destruct (si_node _ _ S th dfn nd Hn Ht) as [A _].
         destruct (Bool.bool_dec (coind (get G (gn_goal nd))) (tv th (gn_sol nd))) as [Eq|Ne].
@@ -544,7 +549,7 @@ Section Solve.
     { intros x [d' [nd' [Xp [Hn' [Hd' [Htv [Hg' [HXp Hx]]]]]]]].
       destruct (HXp x Hx) as [Hc HNJ]. split; auto.
       eapply NJ1_mono; [|exact HNJ]. intros z [Hz|[Hz|Hz]]; auto.
-      - right. exists d', nd', Xp. repeat split; auto.
+      - right. exists d', nd', Xp. do 5 (split; [assumption|]). assumption.
       - right. destruct Hz as [dz [ndz [Hnz [Hgz [Htz [Hcz [Hlz _]]]]]]].
         destruct (Hseg d' nd' Hn' Hd') as [_ Hl'].
         assert (Hdz : dfn <= dz).
@@ -553,10 +558,11 @@ Section Solve.
         assert (Htz' : trusted th (tv th (gn_sol ndz)) s) by (rewrite Htz; exact Ht).
         destruct (HN th dz ndz Hnz Hdz Htz') as [_ Bz].
         rewrite Htz in Bz. rewrite Hgz in Bz. destruct (Bz Hcz Hpz) as [Xz [Hgz' HXz]].
-        exists dz, ndz, Xz. rewrite Hgz. repeat split; auto. }
+        exists dz, ndz, Xz. rewrite Hgz. do 5 (split; [assumption|]). assumption. }
     destruct (Hseg d nd Hn Hd) as [Hp _].
     destruct (B Eq Hp) as [Xp [Hg HXp]].
-    apply (closed_abs G th b X HX). exists d, nd, Xp. repeat split; auto.
+    apply (closed_abs G th b X HX). exists d, nd, Xp. split; [assumption|]. split; [assumption|].
+    split; [reflexivity|]. split; [assumption|]. split; assumption.
   Qed.
 
   Lemma nth_error_ext {A} (l l' : list A) : (forall i, nth_error l i = nth_error l' i) -> l = l'.
@@ -582,8 +588,857 @@ Section Solve.
   Lemma In_skipn_nodeat s dfn n : In n (skipn dfn (sgraph s)) -> exists d, dfn <= d /\ nodeat s d n.
   Proof. intros H. apply In_skipn_nth in H. exact H. Qed.
 
+  (** ** popping a node *)
+  Record loop_out (s0 s1 : state) (g depth dfn : nat) (sm : mn) : Prop := {
+    lo_sub : sub s0 s1;
+    lo_wf : WF s1;
+    lo_cache : cache_exact G s1;
+    lo_len : S depth = length (stack s1);
+    lo_node : exists nd1, nodeat s1 dfn nd1 /\ gn_goal nd1 = g /\ gn_depth nd1 = Some depth;
+    lo_new : forall d nd, nodeat s1 d nd -> dfn < d -> gn_depth nd = None /\ mn_le sm (gn_links nd);
+    lo_path : forall l, sm = Some l ->
+                S dfn <= l \/ (l <= dfn /\ exists nd, nodeat s1 l nd /\ path G g (gn_goal nd));
+    lo_si : NewSI (popnode s1 dfn sm) dfn;
+  }.
+
+  Lemma nodeat_pop s dfn sm nd1 d nd :
+    nodeat s dfn nd1 ->
+    (nodeat (popnode s dfn sm) d nd <->
+     (d <> dfn /\ nodeat s d nd) \/ (d = dfn /\ nd = mkGnode (gn_goal nd1) (gn_sol nd1) None sm)).
+  Proof.
+    intros H1. unfold nodeat, popnode. simpl. split.
+    - intros H. destruct (Nat.eq_dec d dfn) as [->|Hne].
+      + right. split; auto. rewrite (upd_nth_same _ _ _ _ H1) in H. congruence.
+      + left. split; auto. rewrite upd_nth_other in H; auto.
+    - intros [[Hne H]|[-> ->]].
+      + rewrite upd_nth_other; auto.
+      + rewrite (upd_nth_same _ _ _ _ H1). reflexivity.
+  Qed.
+
+  Lemma stack_pop s dfn sm : stack (popnode s dfn sm) = removelast (stack s).
+  Proof. reflexivity. Qed.
+
+  Lemma prefix_back s0 s1 d nd : sub s0 s1 -> nodeat s1 d nd -> d < length (sgraph s0) -> nodeat s0 d nd.
+  Proof.
+    intros E H Hd. destruct (nth_error (sgraph s0) d) as [nd0|] eqn:E0.
+    - pose proof (sub_graph _ _ E d nd0 E0) as H1. unfold nodeat in *. congruence.
+    - apply nth_error_None in E0. lia.
+  Qed.
+
+  Lemma WF_pop s0 s1 g t depth dfn l :
+    WF s0 -> Ctx s0 t g -> length (sgraph s0) = dfn -> length (stack s0) = depth ->
+    loop_out s0 s1 g depth dfn (Some l) -> l < dfn -> WF (popnode s1 dfn (Some l)).
+  Proof.
+    intros W0 C Hdfn Hdepth L Hl.
+    destruct (lo_node _ _ _ _ _ _ L) as [nd1 [Hn1 [Hg1 Hd1]]].
+    pose proof (lo_wf _ _ _ _ _ _ L) as W1. pose proof (lo_len _ _ _ _ _ _ L) as Hlen.
+    pose proof (lo_sub _ _ _ _ _ _ L) as Hsub.
+    (* the node the popped one links to *)
+    destruct (lo_path _ _ _ _ _ _ L l eq_refl) as [Hbad|[_ [ndl [Hnl Hpl]]]]; [lia|].
+    assert (Hnl0 : nodeat s0 l ndl) by (eapply prefix_back; eauto; lia).
+    (* other stack nodes lie below *)
+    assert (Hbelow : forall d nd i, nodeat s1 d nd -> gn_depth nd = Some i -> d <> dfn -> i < depth /\ d < dfn).
+    { intros d nd i Hn Hd Hne.
+      pose proof (wf_depth_lt _ _ _ _ W1 Hn Hd) as Hi.
+      assert (i <> depth) by (intros ->; apply Hne; eapply wf_inj; eauto).
+      assert (Hi' : i < depth) by lia. split; auto.
+      apply (wf_mono _ _ W1 d dfn nd nd1 i depth Hn Hn1 Hd Hd1). auto. }
+    set (nd2 := mkGnode (gn_goal nd1) (gn_sol nd1) None (Some l)).
+    assert (Hcase : forall d nd, nodeat (popnode s1 dfn (Some l)) d nd ->
+              (d <> dfn /\ nodeat s1 d nd) \/ (d = dfn /\ nd = nd2)) by (intros d nd H; apply (nodeat_pop _ _ _ _ _ _ Hn1); auto).
+    assert (Hold : forall d nd, d <> dfn -> nodeat s1 d nd -> nodeat (popnode s1 dfn (Some l)) d nd)
+      by (intros d nd Hne H; apply (nodeat_pop _ _ _ _ _ _ Hn1); auto).
+    assert (Hnew : nodeat (popnode s1 dfn (Some l)) dfn nd2) by (apply (nodeat_pop _ _ _ _ _ _ Hn1); auto).
+    (* every node of the popped state reaches the new top *)
+    assert (Hreach : forall d nd, nodeat (popnode s1 dfn (Some l)) d nd -> d < dfn -> nodeat s0 d nd).
+    { intros d nd H Hd. destruct (Hcase d nd H) as [[_ H1]|[-> _]]; [|lia]. eapply prefix_back; eauto. lia. }
+    constructor.
+    - intros d nd H. destruct (Hcase d nd H) as [[_ H1]|[-> ->]]; simpl.
+      + eapply wf_goal; eauto.
+      + eapply (wf_goal _ _ W1); eauto.
+    - intros d d' nd nd' H H' E.
+      destruct (Hcase d nd H) as [[N1 H1]|[-> ->]], (Hcase d' nd' H') as [[N2 H2]|[-> ->]]; auto.
+      + eapply wf_nodup; eauto.
+      + simpl in E. eapply (wf_nodup _ _ W1 d dfn nd nd1); eauto.
+      + simpl in E. eapply (wf_nodup _ _ W1 dfn d' nd1 nd'); eauto.
+    - intros d nd i H Hd. destruct (Hcase d nd H) as [[N1 H1]|[-> ->]]; [|discriminate].
+      destruct (wf_dep _ _ W1 d nd i H1 Hd) as [A [e [He Hc]]]. split; auto. exists e. split; auto.
+      rewrite stack_pop. rewrite nth_error_removelast; auto.
+      destruct (Hbelow d nd i H1 Hd N1). lia.
+    - intros i Hi. rewrite stack_pop, removelast_length in Hi.
+      destruct (wf_surj _ _ W1 i) as [d [nd [Hn Hd]]]; [lia|].
+      exists d, nd. split; auto. apply Hold; auto. intros ->.
+      assert (i = depth) by congruence. lia.
+    - intros d d' nd nd' i i' H H' Hd Hd'.
+      destruct (Hcase d nd H) as [[N1 H1]|[-> ->]]; [|discriminate].
+      destruct (Hcase d' nd' H') as [[N2 H2]|[-> ->]]; [|discriminate].
+      eapply wf_mono; eauto.
+    - intros d nd H Hd. destruct (Hcase d nd H) as [[N1 H1]|[-> ->]].
+      + destruct (wf_pend _ _ W1 d nd H1 Hd) as [l' [ndl' [A [B [C' D]]]]].
+        destruct (Nat.eq_dec l' dfn) as [->|Hne].
+        * exists dfn, nd2. split; [exact A|]. split; [exact B|]. split; [exact Hnew|].
+          unfold nodeat in C', Hn1. assert (ndl' = nd1) by congruence. subst ndl'. exact D.
+        * exists l', ndl'. split; [exact A|]. split; [exact B|]. split; [apply Hold; auto|exact D].
+      + exists l, ndl. split; [reflexivity|]. split; [exact Hl|]. split; [apply Hold; [lia|exact Hnl]|].
+        simpl. rewrite Hg1. exact Hpl.
+    - intros d nd dt ndt H Ht Hdt. rewrite stack_pop, removelast_length in Hdt.
+      destruct (Hcase dt ndt Ht) as [[N2 H2]|[-> ->]]; [|discriminate].
+      destruct (Hbelow dt ndt _ H2 Hdt N2) as [Hi Hdtlt].
+      assert (Ht0 : nodeat s0 dt ndt) by (eapply prefix_back; eauto; lia).
+      assert (Htop0 : gn_depth ndt = Some (length (stack s0) - 1)) by (rewrite Hdt; f_equal; lia).
+      assert (Hlow : forall d' nd', nodeat s0 d' nd' -> path G (gn_goal nd') (gn_goal ndt))
+        by (intros d' nd' H'; eapply (wf_top _ _ W0 d' nd' dt ndt); eauto).
+      destruct (lt_dec d dfn) as [Hlt|Hge].
+      + apply (Hlow d nd). apply Hreach; auto.
+      + (* a node of the popped component: through the popped node and its link *)
+        assert (Hg : path G (gn_goal nd) g).
+        { destruct (Hcase d nd H) as [[N1 H1]|[-> ->]].
+          - eapply (wf_top _ _ W1 d nd dfn nd1) in H1; eauto; [congruence|]. rewrite Hd1. f_equal. lia.
+          - simpl. rewrite Hg1. apply path_refl. }
+        eapply path_trans; [exact Hg|]. eapply path_trans; [exact Hpl|]. apply (Hlow l ndl). auto.
+    - intros d nd d' nd' i i' H H' Hd Hd' Hle.
+      destruct (Hcase d nd H) as [[N1 H1]|[-> ->]]; [|discriminate].
+      destruct (Hcase d' nd' H') as [[N2 H2]|[-> ->]]; [|discriminate].
+      eapply wf_chain; eauto.
+  Qed.
+
+  Lemma finish_node_eq m depth dfn sm s1 :
+    finish_node m depth dfn sm s1 =
+    if negb (S depth =? length (stack s1)) then
+      Panic MismatchedPop (set_graph s1 (upd (sgraph s1) dfn (fun n => mkGnode (gn_goal n) (gn_sol n) None sm)))
+    else
+      let s2 := popnode s1 dfn sm in
+      match nth_error (sgraph s2) dfn with
+      | None => Panic BadIndex s2
+      | Some nd =>
+        if mn_geb sm dfn then
+          if caching cf && negb (fix_f3 (vr cf) && interrupted s2)
+          then bind (move_to_cache s2 dfn) (fun _ s => Done (gn_sol nd, mn_min m sm) s)
+          else Done (gn_sol nd, mn_min m sm) (rollback_to s2 dfn)
+        else Done (gn_sol nd, mn_min m sm) s2
+      end.
+  Proof. reflexivity. Qed.
+
+  Lemma finish_node_spec s0 s1 g t m depth dfn sm :
+    WF s0 -> SI s0 -> g < length G -> Ctx s0 t g ->
+    length (sgraph s0) = dfn -> length (stack s0) = depth ->
+    loop_out s0 s1 g depth dfn sm ->
+    sg_post G cf t g m s0 (finish_node m depth dfn sm s1).
+  Proof.
+    intros W0 S0 Hg C Hdfn Hdepth L.
+    destruct (lo_node _ _ _ _ _ _ L) as [nd1 [Hn1 [Hg1 Hd1]]].
+    pose proof (lo_wf _ _ _ _ _ _ L) as W1. pose proof (lo_len _ _ _ _ _ _ L) as Hlen.
+    pose proof (lo_sub _ _ _ _ _ _ L) as Hsub.
+    rewrite finish_node_eq. rewrite <- Hlen, Nat.eqb_refl. simpl negb. cbv iota.
+    set (s2 := popnode s1 dfn sm).
+    set (nd2 := mkGnode (gn_goal nd1) (gn_sol nd1) None sm).
+    assert (Hcase : forall d nd, nodeat s2 d nd -> (d <> dfn /\ nodeat s1 d nd) \/ (d = dfn /\ nd = nd2))
+      by (intros d nd H; apply (nodeat_pop _ _ _ _ _ _ Hn1); auto).
+    assert (Hold : forall d nd, d <> dfn -> nodeat s1 d nd -> nodeat s2 d nd)
+      by (intros d nd Hne H; apply (nodeat_pop _ _ _ _ _ _ Hn1); auto).
+    assert (Hnew : nodeat s2 dfn nd2) by (apply (nodeat_pop _ _ _ _ _ _ Hn1); auto).
+    cbv zeta. unfold nodeat in Hnew. fold s2. rewrite Hnew.
+    (* stack of the popped state versus the state before the push *)
+    assert (Hst2 : forall i e, nth_error (stack s0) i = Some e ->
+              exists e', nth_error (stack s2) i = Some e' /\ se_coind e' = se_coind e /\ (se_cycle e = true -> se_cycle e' = true)).
+    { intros i e Hi. destruct (sub_stack _ _ Hsub i e Hi) as [e' [A B]]. exists e'. split; auto.
+      unfold s2. rewrite stack_pop. rewrite nth_error_removelast; auto.
+      assert (i < length (stack s0)) by (apply nth_error_Some; congruence). lia. }
+    assert (Hlen2 : length (stack s2) = length (stack s0)).
+    { unfold s2. rewrite stack_pop, removelast_length. lia. }
+    assert (Hpre : forall d nd, nodeat s0 d nd -> nodeat s2 d nd).
+    { intros d nd H. apply Hold; [pose proof (nodeat_lt _ _ _ H); lia|]. apply (sub_graph _ _ Hsub); auto. }
+    assert (Hint2 : interrupted s0 = true -> interrupted s2 = true) by (intros H; apply (sub_int _ _ Hsub H)).
+    destruct (mn_geb sm dfn) eqn:Egeb.
+    - (* the component is complete *)
+      apply mn_geb_spec in Egeb.
+      assert (Hseg : forall d nd, nodeat s2 d nd -> dfn <= d -> gn_depth nd = None /\ mn_le (Some dfn) (gn_links nd)).
+      { intros d nd H Hd. destruct (Hcase d nd H) as [[N1 H1]|[-> ->]]; [|split; auto].
+        destruct (lo_new _ _ _ _ _ _ L d nd H1) as [A B]; [lia|]. split; auto. eapply mn_le_trans; eauto. }
+      pose proof (closure s2 dfn Hseg (lo_si _ _ _ _ _ _ L)) as Hcl.
+      assert (Hgraph : firstn dfn (sgraph s2) = sgraph s0).
+      { apply nth_error_ext. intros i. destruct (lt_dec i dfn) as [Hlt|Hge].
+        - rewrite nth_error_firstn by auto.
+          destruct (nth_error (sgraph s0) i) as [nd|] eqn:E.
+          + apply Hpre in E. exact E.
+          + apply nth_error_None in E. lia.
+        - rewrite nth_error_firstn_ge by lia. symmetry. apply nth_error_None. lia. }
+      (* whatever happens to the cache, the resulting state extends [s0] *)
+      assert (Hres : forall s3, stack s3 = stack s2 -> sgraph s3 = firstn dfn (sgraph s2) ->
+                interrupted s3 = interrupted s2 -> cache_exact G s3 ->
+                sg_post G cf t g m s0 (Done (gn_sol nd2, mn_min m sm) s3)).
+      { intros s3 E1 E2 E3 Hc3.
+        assert (Hsub3 : sub s0 s3).
+        { constructor.
+          - intros i e Hi. rewrite E1. apply Hst2; auto.
+          - intros d nd H. unfold nodeat. rewrite E2, Hgraph. exact H.
+          - intros H. rewrite E3. auto. }
+        assert (Hg3 : sgraph s3 = sgraph s0) by congruence.
+        assert (W3 : WF s3).
+        { apply (WF_restack s0 s3 W0 Hg3); [rewrite E1; exact Hlen2|].
+          intros i e Hi. rewrite E1. destruct (Hst2 i e Hi) as [e' [A [B _]]]. eauto. }
+        split.
+        - constructor; auto.
+          + exact (SI_sub_graph s0 s3 W0 S0 Hsub3 Hg3 Hc3).
+          + constructor; try (apply Hsub3).
+            * congruence.
+            * intros d nd H Hd. unfold nodeat in H. rewrite Hg3 in H.
+              pose proof (nodeat_lt _ _ _ H). lia.
+          + apply mn_min_le_l.
+          + intros d nd H Hd. unfold nodeat in H. rewrite Hg3 in H. pose proof (nodeat_lt _ _ _ H). lia.
+          + intros l Hl. destruct (mn_min_cases m sm) as [E|E]; rewrite E in Hl; [left; auto|].
+            right; left. rewrite Hl in Egeb. simpl in Egeb. lia.
+        - intros th Ht. left. simpl.
+          assert (Ht2 : trusted th (tv th (gn_sol nd2)) s2).
+          { destruct Ht as [Ht|Ht]; [left; auto|right; congruence]. }
+          pose proof (Hcl th dfn nd2 Hnew (le_n _) Ht2) as A. simpl in A. rewrite Hg1 in A. exact A. }
+      rewrite Hvr. change (fix_f3 repaired) with true. rewrite andb_true_l.
+      change (interrupted s2) with (interrupted s1).
+      destruct (caching cf && negb (interrupted s1)) eqn:Ecache.
+      + (* promotion to the cache *)
+        apply andb_prop in Ecache. destruct Ecache as [_ Eint]. apply negb_true_iff in Eint.
+        change (interrupted s1) with (interrupted s2) in Eint.
+        unfold move_to_cache.
+        assert (Hmv : forallb (move_ok dfn) (skipn dfn (sgraph s2)) = true).
+        { apply forallb_forall. intros n Hin. apply (In_skipn_nodeat s2 dfn n) in Hin. destruct Hin as [d [Hd Hn]].
+          destruct (Hseg d n Hn Hd) as [A B]. unfold move_ok. rewrite A. apply mn_geb_spec. exact B. }
+        rewrite Hmv. simpl bind. apply Hres; auto.
+        intros x v Hx. simpl in Hx. apply cache_fold_get in Hx. destruct Hx as [[n [Hin [Hgn Hsn]]]|Hx].
+        * apply (In_skipn_nodeat s2 dfn n) in Hin. destruct Hin as [d [Hd Hn]]. subst x v.
+          apply sem_of_abs. intros th. apply (Hcl th d n Hn Hd). right. exact Eint.
+        * apply (lo_cache _ _ _ _ _ _ L). exact Hx.
+      + apply Hres; auto. exact (lo_cache _ _ _ _ _ _ L).
+    - (* the node stays in the search graph *)
+      assert (Hlt : exists l, sm = Some l /\ l < dfn).
+      { destruct sm as [l|]; simpl in Egeb; [|discriminate]. exists l. split; auto. apply Nat.leb_gt. exact Egeb. }
+      destruct Hlt as [l [-> Hl]].
+      destruct (lo_path _ _ _ _ _ _ L l eq_refl) as [Hbad|[_ [ndl [Hnl Hpl]]]]; [lia|].
+      assert (Hnl0 : nodeat s0 l ndl) by (eapply prefix_back; eauto; lia).
+      assert (W2 : WF s2) by (exact (WF_pop s0 s1 g t depth dfn l W0 C Hdfn Hdepth L Hl)).
+      assert (Hsub2 : sub s0 s2) by (constructor; auto).
+      assert (S2 : SI s2).
+      { constructor.
+        - exact (lo_cache _ _ _ _ _ _ L).
+        - intros th d nd H Ht. destruct (lt_dec d dfn) as [Hlt|Hge].
+          + assert (H0 : nodeat s0 d nd).
+            { destruct (Hcase d nd H) as [[_ H1]|[-> _]]; [|lia]. eapply prefix_back; eauto. lia. }
+            destruct (si_node _ _ S0 th d nd H0) as [A B]; [eapply trusted_sub; eauto|].
+            split; auto. intros Hc Hp.
+            eapply (Rel_sub G th _ s0 s2); [exact W0|exact Hsub2|apply mn_le_refl|]. apply B; auto.
+          + apply (lo_si _ _ _ _ _ _ L th d nd H); [lia|auto]. }
+      split.
+      + constructor; auto.
+        * constructor; auto.
+          intros d nd H Hd. destruct (Hcase d nd H) as [[N1 H1]|[-> ->]]; [|reflexivity].
+          apply (lo_new _ _ _ _ _ _ L d nd H1). lia.
+        * apply mn_min_le_l.
+        * intros d nd H Hd. destruct (Hcase d nd H) as [[N1 H1]|[-> ->]].
+          -- eapply mn_le_trans; [apply mn_min_le_r|]. apply (lo_new _ _ _ _ _ _ L d nd H1). lia.
+          -- apply mn_min_le_r.
+        * intros l0 Hl0. destruct (mn_min_cases m (Some l)) as [E|E]; rewrite E in Hl0; [left; auto|].
+          inversion Hl0; subst l0. right; right. split; [lia|]. exists ndl. split; auto.
+      + intros th Ht.
+        destruct (si_node _ _ S2 th dfn nd2 Hnew Ht) as [A _]. simpl in A.
+        destruct (Bool.bool_dec (coind (get G (gn_goal nd1))) (tv th (gn_sol nd1))) as [Eq|Ne].
+        * right. split.
+          -- exists dfn, nd2. split; [exact Hnew|]. split; [exact Hg1|]. split; [reflexivity|].
+             split; [simpl; rewrite <- Hg1; exact Eq|]. split.
+             ++ eapply mn_le_trans; [apply mn_min_le_r|]. simpl. lia.
+             ++ intros i e Hi. discriminate.
+          -- destruct C as [[_ C]|[[dt [ndt [T1 [T2 [T3 T4]]]]] He]].
+             ++ rewrite C in Hdfn. simpl in Hdfn. lia.
+             ++ eapply path_trans; [exact Hpl|]. subst t. eapply (wf_top _ _ W0 l ndl dt ndt); eauto.
+        * left. rewrite <- Hg1. apply A. auto.
+  Qed.
+
+  (** ** the state at the end of a loop iteration, relative to the state [sa] right after
+      [solve_iteration]: the cycle flag of the top entry is reset, the node [dfn] has the new
+      value, later nodes are kept ([keep = true]) or rolled back *)
+  Record exit_state (sa s1 : state) (depth dfn : nat) (v : val) (keep : bool) : Prop := {
+    es_len : length (stack s1) = length (stack sa);
+    es_stack : forall i, i <> depth -> nth_error (stack s1) i = nth_error (stack sa) i;
+    es_top : exists e, nth_error (stack sa) depth = Some e /\
+                       nth_error (stack s1) depth = Some (mkSentry (se_coind e) false);
+    es_graph : forall d, d <> dfn ->
+                 nth_error (sgraph s1) d = if keep || (d <? dfn) then nth_error (sgraph sa) d else None;
+    es_node : exists nd, nodeat sa dfn nd /\
+                         nodeat s1 dfn (mkGnode (gn_goal nd) v (gn_depth nd) (gn_links nd));
+    es_cache : cache s1 = cache sa;
+    es_int : interrupted s1 = interrupted sa;
+  }.
+
+  Definition reset_flag (s : state) (depth : nat) : state :=
+    set_stack s (upd (stack s) depth (fun e => mkSentry (se_coind e) false)).
+
+  Lemma exit_state_keep sa depth dfn v e nd :
+    nth_error (stack sa) depth = Some e -> nodeat sa dfn nd ->
+    exit_state sa (set_sol (reset_flag sa depth) dfn v) depth dfn v true.
+  Proof.
+    intros He Hn. constructor; simpl; auto.
+    - apply upd_length.
+    - intros i Hi. apply upd_nth_other; auto.
+    - exists e. split; auto. rewrite (upd_nth_same _ _ _ _ He). reflexivity.
+    - intros d Hd. apply upd_nth_other; auto.
+    - exists nd. split; auto. unfold nodeat. simpl. rewrite (upd_nth_same _ _ _ _ Hn). reflexivity.
+  Qed.
+
+  Lemma exit_state_ticks sa s1 depth dfn v keep :
+    exit_state sa s1 depth dfn v keep -> exit_state sa (bump_ticks s1) depth dfn v keep.
+  Proof. intros E. destruct E. constructor; auto. Qed.
+
+  Lemma exit_state_rollback sa s1 depth dfn v :
+    exit_state sa s1 depth dfn v true -> exit_state sa (rollback_to s1 (S dfn)) depth dfn v false.
+  Proof.
+    intros E. destruct E as [E1 E2 E3 E4 [nd [E5 E6]] E7 E8]. constructor; auto.
+    - intros d Hd. change (sgraph (rollback_to s1 (S dfn))) with (firstn (S dfn) (sgraph s1)).
+      rewrite orb_false_l. destruct (d <? dfn) eqn:El.
+      + apply Nat.ltb_lt in El. rewrite nth_error_firstn by lia. rewrite (E4 d Hd). rewrite orb_true_l. reflexivity.
+      + apply Nat.ltb_ge in El. apply nth_error_firstn_ge. lia.
+    - exists nd. split; auto. unfold nodeat.
+      change (sgraph (rollback_to s1 (S dfn))) with (firstn (S dfn) (sgraph s1)).
+      rewrite nth_error_firstn by lia. exact E6.
+  Qed.
+
+  (** ** one iteration of the loop of [solve_new_subgoal] *)
+  Record loop_in (s0 s : state) (g depth dfn : nat) : Prop := {
+    li_wf0 : WF s0;
+    li_si0 : SI s0;
+    li_dfn : length (sgraph s0) = dfn;
+    li_depth : length (stack s0) = depth;
+    li_sub : sub s0 s;
+    li_wf : WF s;
+    li_si : SI s;
+    li_g : g < length G;
+    li_node : exists nd0, nodeat s dfn nd0 /\ gn_goal nd0 = g /\ gn_depth nd0 = Some depth;
+    li_slen : S depth = length (stack s);
+    li_glen : S dfn = length (sgraph s);
+    li_flag : exists e, nth_error (stack s) depth = Some e /\ se_cycle e = false;
+  }.
+
+  Lemma loop_in_top s0 s g depth dfn : loop_in s0 s g depth dfn -> topgoal s g.
+  Proof.
+    intros L. destruct (li_node _ _ _ _ _ L) as [nd0 [A [B C]]].
+    exists dfn, nd0. pose proof (li_slen _ _ _ _ _ L). repeat split; auto; [|lia].
+    rewrite C. f_equal. lia.
+  Qed.
+
+  Section Iter.
+    Variables (s0 s : state) (g depth dfn : nat) (sa : state) (m : mn) (v : val).
+    Hypothesis LI : loop_in s0 s g depth dfn.
+    Hypothesis F : frame s sa g None m.
+    Hypothesis NC : forall th, trusted th (tv th v) sa -> NJ1 G th (tv th v) (J th (tv th v) sa m g) g.
+
+    Let Wa : WF sa := fr_wf _ _ _ _ _ _ F.
+    Let Sa : SI sa := fr_si _ _ _ _ _ _ F.
+    Let Ea : ext s sa := fr_ext _ _ _ _ _ _ F.
+
+    Lemma iter_node : exists nda, nodeat sa dfn nda /\ gn_goal nda = g /\ gn_depth nda = Some depth /\
+                                  gn_links nda = Some dfn.
+    Proof.
+      destruct (li_node _ _ _ _ _ LI) as [nd0 [A [B C]]]. exists nd0.
+      pose proof (ext_graph _ _ Ea dfn nd0 A) as A'. repeat split; auto.
+      apply (wf_dep _ _ Wa dfn nd0 depth A' C).
+    Qed.
+
+    Lemma iter_slen : S depth = length (stack sa).
+    Proof. rewrite (ext_len _ _ Ea). apply (li_slen _ _ _ _ _ LI). Qed.
+
+    (** the new value of the node is absolute when it differs from the kind of the node *)
+    Lemma abs_new th : trusted th (tv th v) sa -> coind (get G g) <> tv th v -> Abs G th (tv th v) g.
+    Proof.
+      intros Ht Hne. apply NJ1_abs. eapply NJ1_mono_in; [|apply (NC th Ht)].
+      intros c x Hc Hx [HA|[HG HP]]; auto. exfalso. apply Hne.
+      destruct HG as [d [nd [_ [_ [_ [Hco _]]]]]]. rewrite <- Hco.
+      apply same_kind; auto. eapply path_step; [eapply edge_clause; eauto|apply path_refl].
+    Qed.
+
+    Section Exit.
+      Variables (s1 : state) (keep : bool).
+      Hypothesis E : exit_state sa s1 depth dfn v keep.
+
+      Let nd1 := mkGnode g v (Some depth) (Some dfn).
+
+      Lemma exit_node : nodeat s1 dfn nd1.
+      Proof.
+        destruct iter_node as [nda [A [B [C D]]]]. destruct (es_node _ _ _ _ _ _ E) as [nd [H1 H2]].
+        unfold nodeat in *. assert (nd = nda) by congruence. subst nd. rewrite B, C, D in H2. exact H2.
+      Qed.
+
+      Lemma exit_case d nd : nodeat s1 d nd ->
+        (d <> dfn /\ nodeat sa d nd /\ (keep = true \/ d < dfn)) \/ (d = dfn /\ nd = nd1).
+      Proof.
+        intros H. destruct (Nat.eq_dec d dfn) as [->|Hne].
+        - right. split; auto. pose proof exit_node. unfold nodeat in *. congruence.
+        - left. split; auto. unfold nodeat in H. rewrite (es_graph _ _ _ _ _ _ E d Hne) in H.
+          destruct keep; simpl in H.
+          + split; auto.
+          + destruct (d <? dfn) eqn:El; [|discriminate]. apply Nat.ltb_lt in El. split; auto.
+      Qed.
+
+      Lemma exit_old d nd : d <> dfn -> nodeat sa d nd -> (keep = true \/ d < dfn) -> nodeat s1 d nd.
+      Proof.
+        intros Hne H K. unfold nodeat. rewrite (es_graph _ _ _ _ _ _ E d Hne).
+        destruct K as [->|K]; [exact H|]. apply Nat.ltb_lt in K. rewrite K, orb_true_r. exact H.
+      Qed.
+
+      (** stack nodes other than the top one lie below [dfn] *)
+      Lemma iter_below d nd i : nodeat sa d nd -> gn_depth nd = Some i -> d <> dfn -> i < depth /\ d < dfn.
+      Proof.
+        intros Hn Hd Hne. destruct iter_node as [nda [A [B [C D]]]].
+        pose proof (wf_depth_lt _ _ _ _ Wa Hn Hd) as Hi. pose proof iter_slen.
+        assert (i <> depth) by (intros ->; apply Hne; eapply wf_inj; eauto).
+        assert (Hi' : i < depth) by lia. split; auto.
+        apply (wf_mono _ _ Wa d dfn nd nda i depth Hn A Hd C). auto.
+      Qed.
+
+      Lemma WF_exit : WF s1.
+      Proof.
+        destruct iter_node as [nda [A [B [C D]]]]. pose proof iter_slen as Hsl.
+        pose proof exit_node as Hn1.
+        destruct (es_top _ _ _ _ _ _ E) as [e [He He1]].
+        destruct (wf_dep _ _ Wa dfn nda depth A C) as [_ [e' [He' Hce]]].
+        assert (e' = e) by congruence. subst e'.
+        constructor.
+        - intros d nd H. destruct (exit_case d nd H) as [[_ [H1 _]]|[-> ->]]; simpl.
+          + eapply wf_goal; eauto.
+          + apply (li_g _ _ _ _ _ LI).
+        - intros d d' nd nd' H H' Eg.
+          destruct (exit_case d nd H) as [[N1 [H1 _]]|[-> ->]], (exit_case d' nd' H') as [[N2 [H2 _]]|[-> ->]]; auto.
+          + eapply wf_nodup; eauto.
+          + simpl in Eg. eapply (wf_nodup _ _ Wa d dfn nd nda); eauto. congruence.
+          + simpl in Eg. eapply (wf_nodup _ _ Wa dfn d' nda nd'); eauto. congruence.
+        - intros d nd i H Hd. destruct (exit_case d nd H) as [[N1 [H1 _]]|[-> ->]].
+          + destruct (wf_dep _ _ Wa d nd i H1 Hd) as [A' [e2 [He2 Hc2]]]. split; auto. exists e2. split; auto.
+            rewrite (es_stack _ _ _ _ _ _ E); auto. destruct (iter_below d nd i H1 Hd N1). lia.
+          + simpl in Hd. inversion Hd; subst i. split; auto. eexists. split; [exact He1|]. simpl. rewrite <- B. exact Hce.
+        - intros i Hi. rewrite (es_len _ _ _ _ _ _ E) in Hi.
+          destruct (Nat.eq_dec i depth) as [->|Hne].
+          + exists dfn, nd1. split; auto.
+          + destruct (wf_surj _ _ Wa i Hi) as [d [nd [Hn Hd]]]. exists d, nd. split; auto.
+            assert (d <> dfn) by (intros ->; unfold nodeat in *; congruence).
+            apply exit_old; auto. right. destruct (iter_below d nd i Hn Hd H). auto.
+        - intros d d' nd nd' i i' H H' Hd Hd'.
+          destruct (exit_case d nd H) as [[N1 [H1 _]]|[-> ->]], (exit_case d' nd' H') as [[N2 [H2 _]]|[-> ->]].
+          + eapply wf_mono; eauto.
+          + simpl in Hd'. inversion Hd'; subst i'. destruct (iter_below d nd i H1 Hd N1). lia.
+          + simpl in Hd. inversion Hd; subst i. destruct (iter_below d' nd' i' H2 Hd' N2). lia.
+          + simpl in Hd, Hd'. inversion Hd; inversion Hd'; subst. lia.
+        - intros d nd H Hd. destruct (exit_case d nd H) as [[N1 [H1 K]]|[-> ->]]; [|discriminate].
+          destruct (wf_pend _ _ Wa d nd H1 Hd) as [l [ndl [A1 [A2 [A3 A4]]]]].
+          destruct (Nat.eq_dec l dfn) as [->|Hne].
+          + exists dfn, nd1. split; [exact A1|]. split; [exact A2|]. split; [exact Hn1|].
+            simpl. unfold nodeat in *. assert (ndl = nda) by congruence. subst ndl. rewrite <- B. exact A4.
+          + exists l, ndl. split; [exact A1|]. split; [exact A2|]. split; [|exact A4].
+            apply exit_old; auto. destruct K as [K|K]; [left; auto|right; lia].
+        - intros d nd dt ndt H Ht Hdt. rewrite (es_len _ _ _ _ _ _ E), <- Hsl in Hdt. simpl in Hdt.
+          rewrite Nat.sub_0_r in Hdt.
+          assert (Hgt : gn_goal ndt = g).
+          { destruct (exit_case dt ndt Ht) as [[N2 [H2 _]]|[-> ->]]; [|reflexivity].
+            exfalso. apply N2. eapply wf_inj; eauto. }
+          rewrite Hgt. destruct (exit_case d nd H) as [[N1 [H1 _]]|[-> ->]]; [|apply path_refl].
+          rewrite <- B. eapply (wf_top _ _ Wa d nd dfn nda); eauto. rewrite C. f_equal. lia.
+        - intros d nd d' nd' i i' H H' Hd Hd' Hle.
+          assert (Hs : forall d nd, nodeat s1 d nd -> exists nd', nodeat sa d nd' /\ gn_goal nd' = gn_goal nd /\ gn_depth nd' = gn_depth nd).
+          { intros d2 nd2 H2. destruct (exit_case d2 nd2 H2) as [[_ [H3 _]]|[-> ->]]; [eauto|].
+            exists nda. simpl. auto. }
+          destruct (Hs d nd H) as [x [X1 [X2 X3]]], (Hs d' nd' H') as [y [Y1 [Y2 Y3]]].
+          rewrite <- X2, <- Y2. eapply (wf_chain _ _ Wa d x d' y i i'); eauto; congruence.
+      Qed.
+
+      Lemma sub0_exit : sub s0 s1.
+      Proof.
+        pose proof (li_sub _ _ _ _ _ LI) as H0. pose proof (ext_sub _ _ Ea) as H1.
+        pose proof (sub_trans _ _ _ H0 H1) as H2.
+        constructor.
+        - intros i e Hi. destruct (sub_stack _ _ H2 i e Hi) as [e' [A B]]. exists e'. split; auto.
+          rewrite (es_stack _ _ _ _ _ _ E); auto.
+          assert (i < length (stack s0)) by (apply nth_error_Some; congruence).
+          pose proof (li_depth _ _ _ _ _ LI). lia.
+        - intros d nd H. pose proof (nodeat_lt _ _ _ H) as Hlt. pose proof (li_dfn _ _ _ _ _ LI).
+          apply exit_old; [lia|apply (sub_graph _ _ H2); auto|right; lia].
+        - intros H. rewrite (es_int _ _ _ _ _ _ E). apply (sub_int _ _ H2 H).
+      Qed.
+
+      (** *** the popped state *)
+      Variable sm : mn.
+      Let s2 := popnode s1 dfn sm.
+      Let nd2 := mkGnode g v None sm.
+
+      Lemma pop_case d nd : nodeat s2 d nd ->
+        (d <> dfn /\ nodeat sa d nd /\ (keep = true \/ d < dfn)) \/ (d = dfn /\ nd = nd2).
+      Proof.
+        intros H. apply (nodeat_pop _ _ _ _ _ _ exit_node) in H. destruct H as [[Hne H]|[-> ->]].
+        - destruct (exit_case d nd H) as [A|[A _]]; [left; auto|contradiction].
+        - right. split; reflexivity.
+      Qed.
+
+      Lemma pop_new : nodeat s2 dfn nd2.
+      Proof. apply (nodeat_pop _ _ _ _ _ _ exit_node). right. split; reflexivity. Qed.
+
+      Lemma pop_old d nd : d <> dfn -> nodeat sa d nd -> (keep = true \/ d < dfn) -> nodeat s2 d nd.
+      Proof. intros Hne H K. apply (nodeat_pop _ _ _ _ _ _ exit_node). left. split; auto. apply exit_old; auto. Qed.
+
+      Lemma trusted_pop th b : trusted th b s2 <-> trusted th b sa.
+      Proof.
+        unfold trusted. change (interrupted s2) with (interrupted s1). rewrite (es_int _ _ _ _ _ _ E). tauto.
+      Qed.
+
+      Lemma flagged_pop d nd : nodeat sa d nd -> d <> dfn -> flagged sa nd -> flagged s2 nd.
+      Proof.
+        intros Hn Hne Hf i e Hd He. destruct (iter_below d nd i Hn Hd Hne) as [Hi _].
+        apply (Hf i e Hd). unfold s2 in He. rewrite stack_pop in He.
+        pose proof iter_slen. rewrite nth_error_removelast in He by (rewrite (es_len _ _ _ _ _ _ E); lia).
+        rewrite (es_stack _ _ _ _ _ _ E) in He by lia. exact He.
+      Qed.
+
+      (** a leaf that is not the node [dfn] itself and survives *)
+      Lemma GL_pop_other th b l z d nd :
+        nodeat sa d nd -> gn_goal nd = z -> tv th (gn_sol nd) = b -> coind (get G z) = b ->
+        mn_le l (Some d) -> flagged sa nd -> d <> dfn -> (keep = true \/ d < dfn) -> GL th b s2 l z.
+      Proof.
+        intros Hn Hg Ht Hc Hl Hf Hne K. exists d, nd. repeat split; auto.
+        - apply pop_old; auto.
+        - eapply flagged_pop; eauto.
+      Qed.
+
+      (** the node [dfn] in the popped state as a leaf *)
+      Lemma GL_pop_self th b l : tv th v = b -> coind (get G g) = b -> mn_le l (Some dfn) -> GL th b s2 l g.
+      Proof.
+        intros Ht Hc Hl. exists dfn, nd2. repeat split; auto.
+        - apply pop_new.
+        - intros i e Hd. discriminate.
+      Qed.
+
+      (** the claim of the popped node, given where the leaves of the last iteration went *)
+      Lemma NewSI_node (Lf : bool -> bool -> nat -> Prop) :
+        (forall th b x, b = tv th v -> trusted th b sa -> coind (get G g) = b ->
+            J th b sa m g x -> Abs G th b x \/ Lf th b x \/ GL th b s2 sm x) ->
+        (forall th b, b = tv th v -> trusted th b sa -> coind (get G g) = b ->
+            forall x, Lf th b x -> x = g \/ (coind (get G x) = b /\
+               NJ1 G th b (fun y => Abs G th b y \/ (y = g \/ Lf th b y) \/ GL th b s2 sm y) x)) ->
+        forall th, trusted th (tv th (gn_sol nd2)) s2 ->
+          (coind (get G (gn_goal nd2)) <> tv th (gn_sol nd2) -> Abs G th (tv th (gn_sol nd2)) (gn_goal nd2)) /\
+          (coind (get G (gn_goal nd2)) = tv th (gn_sol nd2) -> gn_depth nd2 = None ->
+             Rel th (tv th (gn_sol nd2)) s2 (gn_links nd2) (gn_goal nd2)).
+      Proof.
+        intros HL HX th Ht. simpl in *. apply trusted_pop in Ht. split.
+        - intros Hne. apply abs_new; auto.
+        - intros Hc _. exists (fun x => x = g \/ Lf th (tv th v) x). split; [left; auto|].
+          assert (Hg : NJ1 G th (tv th v) (fun y => Abs G th (tv th v) y \/ (y = g \/ Lf th (tv th v) y) \/ GL th (tv th v) s2 sm y) g).
+          { eapply NJ1_mono; [|apply (NC th Ht)]. intros x Hx.
+            destruct (HL th (tv th v) x eq_refl Ht Hc Hx) as [A|[A|A]]; auto. }
+          intros x [->|Hx]; [split; auto|].
+          destruct (HX th (tv th v) eq_refl Ht Hc x Hx) as [->|[A B]]; [split; auto|split; auto].
+      Qed.
+    End Exit.
+  End Iter.
+
+  (** a leaf of the state after the iteration, seen from the popped state *)
+  Lemma GL_transfer s0 s g depth dfn sa m v s1 keep sm th b l z
+        (LI : loop_in s0 s g depth dfn) (F : frame s sa g None m)
+        (E : exit_state sa s1 depth dfn v keep) :
+    GL th b sa l z ->
+    (* the node [dfn] itself: allowed as a leaf when its projected value is unchanged *)
+    (forall nda, nodeat sa dfn nda -> flagged sa nda -> tv th (gn_sol nda) = b -> tv th v = b) ->
+    (exists d nd, nodeat sa d nd /\ gn_goal nd = z /\ dfn < d /\ keep = false /\ tv th (gn_sol nd) = b /\ coind (get G z) = b) \/
+    GL th b (popnode s1 dfn sm) l z.
+  Proof.
+    intros [d [nd [Hn [Hg [Ht [Hc [Hl Hf]]]]]]] Hself.
+    destruct (Nat.eq_dec d dfn) as [->|Hne].
+    - right. destruct (iter_node s0 s g depth dfn sa m LI F) as [nda [A [B _]]].
+      unfold nodeat in *. assert (nd = nda) by congruence. subst nd.
+      rewrite <- Hg, B. eapply (GL_pop_self s0 s g depth dfn sa m v LI F s1 keep E); eauto.
+      + rewrite <- B, Hg. exact Hc.
+    - destruct keep eqn:Ek.
+      + right. eapply (GL_pop_other s0 s g depth dfn sa m v LI F s1 true E); eauto.
+      + destruct (lt_dec d dfn) as [Hlt|Hge].
+        * right. eapply (GL_pop_other s0 s g depth dfn sa m v LI F s1 false E); eauto.
+        * left. exists d, nd. repeat split; auto. lia.
+  Qed.
+
+  Lemma loop_out_keep s0 s g depth dfn sa m v s1
+        (LI : loop_in s0 s g depth dfn) (F : frame s sa g None m)
+        (NC : forall th, trusted th (tv th v) sa -> NJ1 G th (tv th v) (J th (tv th v) sa m g) g)
+        (E : exit_state sa s1 depth dfn v true) :
+    (forall nda e, nodeat sa dfn nda -> nth_error (stack sa) depth = Some e -> se_cycle e = true -> gn_sol nda = v) ->
+    loop_out s0 s1 g depth dfn m.
+  Proof.
+    intros Hflag.
+    pose proof (fr_wf _ _ _ _ _ _ _ F) as Wa. pose proof (fr_si _ _ _ _ _ _ _ F) as Sa.
+    pose proof (fr_ext _ _ _ _ _ _ _ F) as Ea.
+    destruct (iter_node s0 s g depth dfn sa m LI F) as [nda [A [B [C D]]]].
+    assert (Hself : forall th b nda', nodeat sa dfn nda' -> flagged sa nda' -> tv th (gn_sol nda') = b -> tv th v = b).
+    { intros th b nda' H1 H2 H3. unfold nodeat in *. assert (nda' = nda) by congruence. subst nda'.
+      destruct (wf_dep _ _ Wa dfn nda depth A C) as [_ [e [He _]]].
+      rewrite <- (Hflag nda e A He); auto. apply (H2 depth e C He). }
+    assert (HGL : forall th b l z sm, GL th b sa l z -> GL th b (popnode s1 dfn sm) l z).
+    { intros th b l z sm H.
+      destruct (GL_transfer s0 s g depth dfn sa m v s1 true sm th b l z LI F E H (Hself th b)) as [[d [nd [_ [_ [_ [K _]]]]]]|H']; [discriminate|auto]. }
+    constructor.
+    - eapply sub0_exit; eauto.
+    - eapply WF_exit; eauto.
+    - unfold cache_exact. rewrite (es_cache _ _ _ _ _ _ E). apply (si_cache _ _ Sa).
+    - rewrite (es_len _ _ _ _ _ _ E). eapply iter_slen; eauto.
+    - eexists. split; [eapply exit_node; eauto|]. split; reflexivity.
+    - intros d nd H Hd. destruct (exit_case s0 s g depth dfn sa m v LI F s1 true E d nd H) as [[_ [H1 _]]|[-> _]]; [|lia].
+      pose proof (li_glen _ _ _ _ _ LI). split.
+      + apply (ext_new _ _ Ea d nd H1). lia.
+      + apply (fr_new _ _ _ _ _ _ _ F d nd H1). lia.
+    - intros l Hl. destruct (fr_path _ _ _ _ _ _ _ F l Hl) as [H|[H|[H1 [nd [H2 H3]]]]]; [discriminate| |].
+      + left. pose proof (li_glen _ _ _ _ _ LI). lia.
+      + right. pose proof (li_glen _ _ _ _ _ LI). split; [lia|].
+        destruct (Nat.eq_dec l dfn) as [->|Hne].
+        * eexists. split; [eapply exit_node; eauto|]. simpl.
+          destruct (li_node _ _ _ _ _ LI) as [nd0 [X [Y _]]]. unfold nodeat in *.
+          assert (nd = nd0) by congruence. subst nd. rewrite Y in H3. exact H3.
+        * exists nd. split; auto. eapply exit_old; eauto. apply (ext_graph _ _ Ea); auto.
+    - intros th d nd H Hd Ht.
+      destruct (pop_case s0 s g depth dfn sa m v LI F s1 true E m d nd H) as [[Hne [H1 _]]|[-> ->]].
+      + apply (proj1 (trusted_pop _ _ _ _ _ _ E _ _ _)) in Ht.
+        destruct (si_node _ _ Sa th d nd H1 Ht) as [P Q]. split; auto.
+        intros Hc Hp. destruct (Q Hc Hp) as [X [Xg HX]]. exists X. split; auto.
+        intros x Hx. destruct (HX x Hx) as [Hcx HN]. split; auto.
+        eapply NJ1_mono; [|exact HN]. intros y [Hy|[Hy|Hy]]; auto.
+      + apply (NewSI_node g depth dfn sa m v NC s1 true E m (fun _ _ _ => False)); auto.
+        * intros th' b x Hb Ht' Hc [HA|[HG _]]; auto.
+        * intros th' b _ _ _ x [].
+  Qed.
+
+  Lemma exit_drop_no_later s0 s g depth dfn sa m v s1
+        (LI : loop_in s0 s g depth dfn) (F : frame s sa g None m)
+        (E : exit_state sa s1 depth dfn v false) d nd : nodeat s1 d nd -> d <= dfn.
+  Proof.
+    intros H. destruct (exit_case s0 s g depth dfn sa m v LI F s1 false E d nd H) as [[_ [_ [K|K]]]|[-> _]];
+      [discriminate|lia|lia].
+  Qed.
+
+  (** the loop ends by the ambiguity shortcut: the later nodes are dropped, their
+      justifications survive as a ghost set *)
+  Lemma loop_out_drop s0 s g depth dfn sa m v s1
+        (LI : loop_in s0 s g depth dfn) (F : frame s sa g None m)
+        (NC : forall th, trusted th (tv th v) sa -> NJ1 G th (tv th v) (J th (tv th v) sa m g) g)
+        (E : exit_state sa s1 depth dfn v false) :
+    loop_out s0 s1 g depth dfn m.
+  Proof.
+    pose proof (fr_wf _ _ _ _ _ _ _ F) as Wa. pose proof (fr_si _ _ _ _ _ _ _ F) as Sa.
+    pose proof (fr_ext _ _ _ _ _ _ _ F) as Ea. pose proof (li_glen _ _ _ _ _ LI) as Hgl.
+    destruct (iter_node s0 s g depth dfn sa m LI F) as [nda [A [B [C D]]]].
+    constructor.
+    - eapply sub0_exit; eauto.
+    - eapply WF_exit; eauto.
+    - unfold cache_exact. rewrite (es_cache _ _ _ _ _ _ E). apply (si_cache _ _ Sa).
+    - rewrite (es_len _ _ _ _ _ _ E). eapply iter_slen; eauto.
+    - eexists. split; [eapply exit_node; eauto|]. split; reflexivity.
+    - intros d nd H Hd. pose proof (exit_drop_no_later s0 s g depth dfn sa m v s1 LI F E d nd H). lia.
+    - intros l Hl. destruct (fr_path _ _ _ _ _ _ _ F l Hl) as [H|[H|[H1 [nd [H2 H3]]]]]; [discriminate| |].
+      + left. lia.
+      + right. split; [lia|].
+        destruct (Nat.eq_dec l dfn) as [->|Hne].
+        * eexists. split; [eapply exit_node; eauto|]. simpl.
+          destruct (li_node _ _ _ _ _ LI) as [nd0 [X [Y _]]]. unfold nodeat in *.
+          assert (nd = nd0) by congruence. subst nd. rewrite Y in H3. exact H3.
+        * exists nd. split; auto. eapply exit_old; eauto. apply (ext_graph _ _ Ea); auto. right. lia.
+    - intros th d nd H Hd Ht.
+      destruct (pop_case s0 s g depth dfn sa m v LI F s1 false E m d nd H) as [[Hne [_ [K|K]]]|[-> ->]];
+        [discriminate|lia|].
+      (* the ghost set: the dropped nodes with the same projected value and kind *)
+      set (Lf := fun (th b : bool) (x : nat) =>
+             exists d nd (Xp : nat -> Prop), nodeat sa d nd /\ dfn < d /\ Xp (gn_goal nd) /\
+               (forall y, Xp y -> coind (get G y) = b /\
+                   NJ1 G th b (fun z => Abs G th b z \/ Xp z \/ GL th b sa (gn_links nd) z) y) /\ Xp x).
+      assert (Hdropped : forall th b d nd, trusted th b sa -> nodeat sa d nd -> dfn < d ->
+                tv th (gn_sol nd) = b -> coind (get G (gn_goal nd)) = b -> Lf th b (gn_goal nd)).
+      { intros th' b d' nd' Ht' Hn' Hd' Htv Hco.
+        assert (Hp : gn_depth nd' = None) by (apply (ext_new _ _ Ea d' nd' Hn'); lia).
+        destruct (si_node _ _ Sa th' d' nd' Hn') as [_ Q]; [rewrite Htv; exact Ht'|].
+        rewrite Htv in Q. destruct (Q Hco Hp) as [Xp [Xg HX]].
+        exists d', nd', Xp. repeat split; auto; apply HX; auto. }
+      assert (Hleaf : forall th b l z, trusted th b sa -> b = tv th v -> coind (get G g) = b -> mn_le m l ->
+                GL th b sa l z -> Lf th b z \/ z = g \/ GL th b (popnode s1 dfn m) m z).
+      { intros th' b l z Ht' Hb Hcg Hml HG.
+        destruct (GL_transfer s0 s g depth dfn sa m v s1 false m th' b m z LI F E) as [[d' [nd' [X1 [X2 [X3 [_ [X5 X6]]]]]]]|H'].
+        - destruct HG as [d' [nd' HG']]. exists d', nd'. intuition. eapply mn_le_trans; eauto.
+        - intros _ _ _ _. symmetry. exact Hb.
+        - left. rewrite <- X2. apply (Hdropped th' b d' nd'); auto. rewrite X2. exact X6.
+        - right; right. exact H'. }
+      apply (NewSI_node g depth dfn sa m v NC s1 false E m Lf); auto.
+      + intros th' b x Hb Ht' Hc [HA|[HG _]]; auto.
+        destruct (Hleaf th' b m x Ht' Hb Hc (mn_le_refl _) HG) as [H1|[->|H1]]; auto.
+        right; right. eapply (GL_pop_self s0 s g depth dfn sa m v LI F s1 false E); eauto.
+        destruct HG as [dx [ndx [Y1 [Y2 [_ [_ [Y5 _]]]]]]].
+        assert (dx = dfn) by (eapply (wf_nodup _ _ Wa dx dfn ndx nda); eauto; congruence). subst dx. exact Y5.
+      + intros th' b Hb Ht' Hc x [d' [nd' [Xp [Hn' [Hd' [Xg [HX Hx]]]]]]].
+        right. destruct (HX x Hx) as [Hcx HN]. split; auto.
+        eapply NJ1_mono; [|exact HN]. intros y [Hy|[Hy|Hy]]; auto.
+        * right; left; right. exists d', nd', Xp. repeat split; auto; apply HX; auto.
+        * assert (Hml : mn_le m (gn_links nd')) by (apply (fr_new _ _ _ _ _ _ _ F d' nd' Hn'); lia).
+          destruct (Hleaf th' b (gn_links nd') y Ht' Hb Hc Hml Hy) as [H1|[->|H1]]; auto.
+  Qed.
+
+  (** the loop goes round again *)
+  Lemma loop_in_again s0 s g depth dfn sa m v s1
+        (LI : loop_in s0 s g depth dfn) (F : frame s sa g None m)
+        (NC : forall th, trusted th (tv th v) sa -> NJ1 G th (tv th v) (J th (tv th v) sa m g) g)
+        (E : exit_state sa s1 depth dfn v false) :
+    loop_in s0 s1 g depth dfn.
+  Proof.
+    pose proof (fr_wf _ _ _ _ _ _ _ F) as Wa. pose proof (fr_si _ _ _ _ _ _ _ F) as Sa.
+    assert (Hsub : sub s0 s1) by (eapply sub0_exit; eauto).
+    assert (Hn1 : nodeat s1 dfn (mkGnode g v (Some depth) (Some dfn))) by (eapply exit_node; eauto).
+    constructor.
+    - apply (li_wf0 _ _ _ _ _ LI).
+    - apply (li_si0 _ _ _ _ _ LI).
+    - apply (li_dfn _ _ _ _ _ LI).
+    - apply (li_depth _ _ _ _ _ LI).
+    - exact Hsub.
+    - eapply WF_exit; eauto.
+    - constructor.
+      + unfold cache_exact. rewrite (es_cache _ _ _ _ _ _ E). apply (si_cache _ _ Sa).
+      + intros th d nd H Ht.
+        destruct (exit_case s0 s g depth dfn sa m v LI F s1 false E d nd H) as [[Hne [H1 [K|K]]]|[-> ->]]; [discriminate| |].
+        * assert (H0 : nodeat s0 d nd) by (eapply prefix_back; eauto; rewrite (li_dfn _ _ _ _ _ LI); exact K).
+          destruct (si_node _ _ (li_si0 _ _ _ _ _ LI) th d nd H0) as [P Q]; [eapply trusted_sub; eauto|].
+          split; auto. intros Hc Hp.
+          eapply (Rel_sub G th _ s0 s1); [apply (li_wf0 _ _ _ _ _ LI)|exact Hsub|apply mn_le_refl|]. apply Q; auto.
+        * simpl. split; [|discriminate]. intros Hne. eapply abs_new; eauto.
+          destruct Ht as [Ht|Ht]; [left; auto|right]. rewrite <- (es_int _ _ _ _ _ _ E). exact Ht.
+    - apply (li_g _ _ _ _ _ LI).
+    - eexists. split; [exact Hn1|]. split; reflexivity.
+    - rewrite (es_len _ _ _ _ _ _ E). eapply iter_slen; eauto.
+    - (* exactly the nodes 0..dfn are left *)
+      destruct (le_lt_dec (length (sgraph s1)) dfn) as [Hle|Hlt].
+      + apply nth_error_None in Hle. unfold nodeat in Hn1. congruence.
+      + destruct (le_lt_dec (length (sgraph s1)) (S dfn)) as [Hle2|Hlt2]; [lia|].
+        destruct (nth_error (sgraph s1) (S dfn)) as [nd|] eqn:En.
+        * pose proof (exit_drop_no_later s0 s g depth dfn sa m v s1 LI F E (S dfn) nd En). lia.
+        * apply nth_error_None in En. lia.
+    - destruct (es_top _ _ _ _ _ _ E) as [e [_ He1]]. eexists. split; [exact He1|reflexivity].
+  Qed.
+
   Lemma snsg_S f g depth dfn s :
     solve_new_subgoal G cf (S f) g depth dfn s =
     bind (solve_iteration G cf (solve_goal G cf f) g s) (loop_step f g depth dfn).
   Proof. reflexivity. Qed.
+
+  (** ** the two specifications, by induction on the fuel *)
+  Definition lp_post (s0 : state) (g depth dfn : nat) (r : res mn) : Prop :=
+    match r with
+    | OutOfFuel => True
+    | Panic p s' => (p = Injected \/ p = OverflowDepth) /\ cache_exact G s'
+    | Done sm s1 => loop_out s0 s1 g depth dfn sm
+    end.
+
+  Definition SGspec (f : nat) : Prop := forall g m s t,
+    WF s -> SI s -> g < length G -> Ctx s t g -> sg_post G cf t g m s (solve_goal G cf f g m s).
+
+  Definition LPspec (f : nat) : Prop := forall s0 s g depth dfn,
+    loop_in s0 s g depth dfn -> lp_post s0 g depth dfn (solve_new_subgoal G cf f g depth dfn s).
+
+  Lemma tick_cases s : tick cf s = Panic Injected (bump_ticks s) \/ tick cf s = Done tt (bump_ticks s).
+  Proof. unfold tick. destruct (pn cf (ticks s)); auto. Qed.
+
+  Lemma loop_step_spec f : LPspec f -> forall s0 s g depth dfn sa m v,
+    loop_in s0 s g depth dfn -> frame s sa g None m ->
+    (forall th, trusted th (tv th v) sa -> NJ1 G th (tv th v) (J th (tv th v) sa m g) g) ->
+    lp_post s0 g depth dfn (loop_step f g depth dfn (v, m) sa).
+  Proof.
+    intros HLP s0 s g depth dfn sa m v LI F NC.
+    pose proof (fr_si _ _ _ _ _ _ _ F) as Sa.
+    destruct (iter_node s0 s g depth dfn sa m LI F) as [nda [A [B [C D]]]].
+    pose proof (iter_slen s0 s g depth dfn sa m LI F) as Hsl.
+    destruct (nth_error (stack sa) depth) as [e|] eqn:He; [|apply nth_error_None in He; lia].
+    unfold loop_step. rewrite He. unfold nodeat in A. rewrite A.
+    fold (reset_flag sa depth).
+    pose proof (exit_state_keep sa depth dfn v e nda He A) as E0.
+    destruct (se_cycle e) eqn:Ecyc; simpl negb; cbv iota.
+    - (* some subgoal depended on this node *)
+      match goal with |- context [tick cf ?x] => destruct (tick_cases x) as [Et|Et]; rewrite Et end; simpl bind.
+      + split; auto. unfold cache_exact. simpl. apply (si_cache _ _ Sa).
+      + pose proof (exit_state_ticks _ _ _ _ _ _ E0) as E1.
+        destruct (val_eqb (gn_sol nda) v) eqn:Eold.
+        * (* fixed point *)
+          simpl. eapply loop_out_keep; eauto.
+          intros nda' e' H1 H2 H3. unfold nodeat in H1. assert (nda' = nda) by congruence. subst.
+          destruct (val_eqb_spec (gn_sol nda) v); [auto|discriminate].
+        * destruct (val_eqb v Amb) eqn:Eamb.
+          -- (* the ambiguity shortcut: drop what was computed against the old value *)
+             rewrite Hvr. simpl. eapply loop_out_drop; eauto. apply exit_state_rollback. exact E1.
+          -- (* once more *)
+             apply HLP. eapply loop_in_again; eauto. apply exit_state_rollback. exact E1.
+    - (* nobody looked at the provisional value *)
+      simpl. eapply loop_out_keep; eauto.
+      intros nda' e' H1 H2 H3. assert (e' = e) by congruence. subst. congruence.
+  Qed.
+
+  Lemma sg_post_core s s' t g m r :
+    WF s -> SI s -> same_core s s' -> sg_post G cf t g m s' r -> sg_post G cf t g m s r.
+  Proof.
+    intros W S C H. destruct r as [[v m'] s''|p s''|]; simpl in *; auto.
+    destruct H as [F HJ]. split; auto.
+    eapply frame_trans; [apply (frame_core s s' g m W S C)|exact F].
+  Qed.
+
+  Lemma Ctx_core s s' t g : same_core s s' -> Ctx s t g -> Ctx s' t g.
+  Proof.
+    intros [H1 [H2 _]] [[A B]|[[dt [ndt [T1 [T2 [T3 T4]]]]] He]].
+    - left. split; congruence.
+    - right. split; auto. exists dt, ndt. unfold nodeat. rewrite H1, H2. auto.
+  Qed.
+
+  Theorem specs f : SGspec f /\ LPspec f.
+  Proof.
+    induction f as [|f [IHsg IHlp]].
+    - split; intros; intro; intros; simpl; auto.
+    - assert (Hsg : forall g m s t, WF s -> SI s -> g < length G -> topgoal s t -> edge G t g ->
+                sg_post G cf t g m s (solve_goal G cf f g m s)).
+      { intros g m s t W S Hg T He. apply IHsg; auto. right. auto. }
+      split.
+      + (* solve_goal *)
+        intros g m s t W S Hg C. rewrite solve_goal_S. cbv zeta.
+        assert (C1 : same_core s (bump_work s)) by (repeat split; auto).
+        apply (sg_post_core s (bump_work s) t g m _ W S C1).
+        pose proof (WF_eq s (bump_work s) eq_refl eq_refl W) as W1.
+        pose proof (SI_core s (bump_work s) W C1 S) as S1.
+        pose proof (Ctx_core _ _ _ _ C1 C) as Cx.
+        set (s1 := bump_work s) in *.
+        destruct (if caching cf then cache_get (cache s1) g else None) as [v|] eqn:Ecache.
+        * (* cache hit *)
+          split; [apply frame_refl; auto|]. intros th _. left.
+          apply abs_of_sem. apply (si_cache _ _ S1). destruct (caching cf); [exact Ecache|discriminate].
+        * destruct (glookup (sgraph s1) g) as [dfn|] eqn:Elook.
+          -- destruct (glookup_some _ _ _ Elook) as [nd [Hn Hgn]].
+             eapply found_node_spec; eauto.
+          -- (* a new node *)
+             unfold new_node.
+             destruct (tick_cases s1) as [Et|Et]; rewrite Et; simpl bind; [split; auto; exact (si_cache _ _ S1)|].
+             set (s2 := bump_ticks s1).
+             destruct (tick_cases s2) as [Et2|Et2]; rewrite Et2; simpl bind; [split; auto; exact (si_cache _ _ S1)|].
+             set (s3 := bump_ticks s2).
+             assert (C3 : same_core s1 s3) by (repeat split; auto).
+             apply (sg_post_core s1 s3 t g m _ W1 S1 C3).
+             pose proof (WF_eq s1 s3 eq_refl eq_refl W1) as W3.
+             pose proof (SI_core s1 s3 W1 C3 S1) as S3.
+             pose proof (Ctx_core _ _ _ _ C3 Cx) as C3x.
+             change (stack s) with (stack s3). change (sgraph s) with (sgraph s3).
+             destruct (overflow cf <=? length (stack s3)); [split; auto; exact (si_cache _ _ S3)|].
+             assert (LI : loop_in s3 (push_node s3 g) g (length (stack s3)) (length (sgraph s3))).
+             { constructor; auto.
+               - apply sub_push.
+               - eapply WF_push; eauto.
+               - apply SI_push; auto.
+               - eexists. split; [apply nodeat_push_new|]. split; reflexivity.
+               - rewrite stack_push, app_length. simpl. lia.
+               - unfold push_node. simpl. rewrite app_length. simpl. lia.
+               - eexists. rewrite stack_push. split; [apply nth_error_snoc|reflexivity]. }
+             pose proof (IHlp _ _ _ _ _ LI) as HL.
+             destruct (solve_new_subgoal G cf f g (length (stack s3)) (length (sgraph s3)) (push_node s3 g))
+               as [sm sL|p sL|]; simpl bind; simpl in HL; auto.
+             eapply finish_node_spec; eauto.
+      + (* solve_new_subgoal *)
+        intros s0 s g depth dfn LI. rewrite snsg_S.
+        pose proof (solve_iteration_spec (solve_goal G cf f) Hsg g s (li_wf _ _ _ _ _ LI) (li_si _ _ _ _ _ LI)
+                      (li_g _ _ _ _ _ LI) (loop_in_top _ _ _ _ _ LI)) as HI.
+        destruct (solve_iteration G cf (solve_goal G cf f) g s) as [[v m] sa|p sa|]; simpl bind; simpl in HI; auto.
+        destruct HI as [F NC]. eapply loop_step_spec; eauto.
+  Qed.
 End Solve.
